@@ -623,6 +623,9 @@ static vec_basic bvec(const std::vector<mpq_class> &c)
 // Mirrors only the *branch conditions* of solve_poly_{quadratic,cubic,quartic} (exact arithmetic) to name the code
 // path; for paths that down_cast the result of a sub-solve the type of that sub-result is observed by calling the
 // public sub-solver. Used for signatures, never for the verdict.
+// The sub-solves are observed the way solve.cpp calls them: since the fix of the bad down_cast (sub-solves used to
+// receive the caller's domain and could return EmptySet / Intersection) they run over the default domain.
+static const RCP<const Set> subdom = universalset();
 static std::string quad_class(const std::vector<mpq_class> &c)
 {
     mpq_class b = c[1] / c[2], cc = c[0] / c[2];
@@ -635,7 +638,7 @@ static std::string cubic_class(const std::vector<mpq_class> &c, const RCP<const 
         std::vector<mpq_class> q = {cc, b, mpq_class(1)};
         std::string sub = "?";
         try {
-            sub = tname(solve_poly_quadratic(bvec(q), dom));
+            sub = tname(solve_poly_quadratic(bvec(q), subdom));
         } catch (std::exception &) {
             sub = "throw";
         }
@@ -658,7 +661,7 @@ static std::string sub_cubic(const std::vector<mpq_class> &c, const RCP<const Se
     }
     std::string sub = "?";
     try {
-        sub = tname(solve_poly_cubic(bvec(c), dom));
+        sub = tname(solve_poly_cubic(bvec(c), subdom));
     } catch (std::exception &) {
         sub = "throw";
     }
@@ -692,7 +695,7 @@ static std::string path_class(const Poly &p, int domi, bool &castbad)
                 std::vector<mpq_class> q = {g, e, mpq_class(1)};
                 std::string sub = "?";
                 try {
-                    sub = tname(solve_poly_quadratic(bvec(q), dom));
+                    sub = tname(solve_poly_quadratic(bvec(q), subdom));
                 } catch (std::exception &) {
                     sub = "throw";
                 }
